@@ -8,7 +8,9 @@ META = {
             "count the built world's observation equals the specification's. TLC enumerates 1080 sources (valid and invalid "
             "features, clockwise paths that must be reversed, areas whose paths are dropped) and each is built as a basic "
             "world and as a compact world with 1, 2, 3, 5, 8 and 16 goroutines; lookup, search, enumeration and reference "
-            "queries must equal the spec's for every count (hence each other).",
+            "queries must equal the spec's for every count (hence each other). The parallel stages are also run under load: 150 "
+            "copies of a source in one compact world (every token new to the index and shared by two copies), compared token "
+            "by token with the in-memory builder's world.",
     "note": "Schedules are explored by repetition under different goroutine counts, not enumerated; the validator's "
             "order-independence is a design property of the spec (ValidSubset has no order). Reference queries are compared "
             "for basic worlds only (the compact world defines a different chain, see C02). Trusted: TLC, harness/obs.",
@@ -30,6 +32,14 @@ def run(ctx):
         variants.append({"impl": "pardiff-compact", "cores": cores, "max": (8, 60), "sections": allsec})
     for cores in ([3, 16] if ctx.quick else [2, 3, 7, 16]):
         variants.append({"impl": "pardiff-basic", "cores": cores, "sections": allsec})
+    # the parallel stages under load: 150 copies of a (valid, tagged) source in ONE compact world, whose index stage
+    # runs on all CPUs; every token's posting list, the enumeration and every lookup must equal the in-memory builder's
+    def tagged_and_valid(c):
+        n = sum(1 for f in c["src"].values() if f["kind"] != "absent" and any(
+            k[0] in "#@" and v not in ("-", "") for k, v in f["tags"].items()))
+        return not c["dropped"] and n >= 3
+    variants.append({"impl": "bulk-compact", "cores": 4, "max": (4, 16), "sections": ["bulk"], "replicas": 150,
+                     "only": tagged_and_valid})
     sections = ["lookup", "search", "each", "problems", "build", "observe", "validity"]
     return sworld.run_static(
         ctx, "C36", 1, variants=variants, sections=sections,
